@@ -300,6 +300,68 @@ fn check_name(ctx: &Ctx, proto: &Proto, exhaustive: bool, stride: usize, bound2:
 }
 
 
+/// The same single-fault sweep on another backend and with exactly sized buffers everywhere (payload buffers of
+/// exactly the payload length, transport output buffers of exactly the message length): backends take other
+/// code paths for tight buffers (ring opens through a copy), and whatever they keep between calls is invisible
+/// to the state fingerprint, so this sweep is unmerged like the one above. Faulted reads are also made into
+/// tight and in-between buffers.
+fn check_name_variant(ctx: &Ctx, proto: &Proto, backend: crate::seam::Backend) {
+    let tighten = |o: &Op| -> Op {
+        match o.clone() {
+            Op::HsWrite { side, plen, cap: Cap::Roomy } => Op::HsWrite { side, plen, cap: Cap::NeedPlus(16) },
+            Op::HsRead { side, msg, cap: Cap::Roomy } => Op::HsRead { side, msg, cap: Cap::NeedPlus(0) },
+            Op::TWrite { side, plen, cap: Cap::Roomy } => Op::TWrite { side, plen, cap: Cap::NeedPlus(0) },
+            Op::TRead { side, msg, cap: Cap::Roomy } => Op::TRead { side, msg, cap: Cap::NeedPlus(0) },
+            o => o,
+        }
+    };
+    let h: Vec<Op> = honest(proto).iter().map(tighten).collect();
+    let mut base_cfg = cfg_for(proto, &[]);
+    base_cfg.backend = [backend, backend];
+    let clean = sess::run(&base_cfg, &h);
+    if clean.steps.iter().any(|s| !s.real.is_ok()) {
+        ctx.count("names_skipped_clean_run_failed", 1);
+        return;
+    }
+    let clean_w = wire_bytes(&clean);
+    let mut faults: Vec<Fault> = vec![];
+    for f in faults_for(proto, false, 64) {
+        if f.omit_psk.is_some() {
+            continue;
+        }
+        // failing reads: roomy as given, and into exactly sized / in-between buffers
+        if let [Op::HsRead { side, msg, cap: Cap::Roomy }] = f.ops.as_slice() {
+            for cap in [Cap::NeedPlus(0), Cap::NeedPlus(5)] {
+                faults.push(Fault { at: f.at, ops: vec![Op::HsRead { side: *side, msg: msg.clone(), cap }], kind: f.kind, omit_psk: None });
+            }
+        }
+        if let [Op::TRead { side, msg, cap: Cap::Roomy }] = f.ops.as_slice() {
+            for cap in [Cap::NeedPlus(0), Cap::NeedPlus(5), Cap::NeedPlus(15)] {
+                faults.push(Fault { at: f.at, ops: vec![Op::TRead { side: *side, msg: msg.clone(), cap }], kind: f.kind, omit_psk: None });
+            }
+        }
+        faults.push(f);
+    }
+    for f in &faults {
+        let ops = apply(&h, &[f]);
+        let steps: Vec<usize> = (0..f.ops.len()).map(|j| f.at + j).collect();
+        let e = sess::run(&base_cfg, &ops);
+        ctx.add(&ctx.evaluations, 1);
+        ctx.add(&ctx.transitions, e.steps.len() as u64);
+        ctx.add(&ctx.traces, 1);
+        let (v, nontrivial) = judge_against_clean(&e, &clean_w, &steps, &[f.kind]);
+        if nontrivial {
+            ctx.add(&ctx.nontrivial, 1);
+            ctx.count("failed (exactly sized buffers, other backend)", 1);
+        } else {
+            ctx.count("fault_did_not_fail (not judged)", 1);
+        }
+        for (sig, d) in v {
+            ctx.violation(format!("{sig} [exactly sized buffers]"), format!("{} {:?}: {d}", proto.name, backend), json!({"kind": "c07-diff", "config": base_cfg, "ops": ops, "base_ops": h, "fault_steps": steps}));
+        }
+    }
+}
+
 /// A failing set_psk (wrong key length, location out of range) must change nothing either - in particular it
 /// must not leave something in an EMPTY slot. Baseline: the side's psk is not configured, the call that needs
 /// it fails (missing psk), set_psk supplies it, the session completes. Faulted: the same with failing set_psk
@@ -447,6 +509,22 @@ pub fn run(tier: Tier) -> i32 {
     let stride = if quick { 8 } else { 1 };
     names.par_iter().for_each(|(p, b2)| check_name(&ctx, p, !quick && !*b2, if *b2 { 64 } else { stride }, *b2));
     names.par_iter().filter(|(p, b2)| !*b2 && !p.psks.is_empty()).for_each(|(p, _)| check_failed_set_psk(&ctx, p));
+    // exactly sized buffers on the ring-preferring and the default backend, every base pattern, two ciphers
+    let vnames: Vec<(Proto, crate::seam::Backend)> = patterns::base_patterns()
+        .iter()
+        .enumerate()
+        .flat_map(|(k, b)| {
+            let c = if k % 2 == 0 { CipherAlg::AesGcm } else { CipherAlg::ChaChaPoly };
+            let mut v = vec![(Proto::new(b, &[], DhAlg::X25519, c, HashAlg::Sha256).unwrap(), crate::seam::Backend::Ring)];
+            if !quick || k % 4 == 0 {
+                v.push((Proto::new(b, &[], DhAlg::X25519, if k % 2 == 0 { CipherAlg::ChaChaPoly } else { CipherAlg::XChaChaPoly }, HashAlg::Blake2s).unwrap(), crate::seam::Backend::Default));
+                v.push((Proto::new(b, &[(k % (b.msgs.len() + 1)) as u8], DhAlg::X25519, if k % 2 == 0 { CipherAlg::ChaChaPoly } else { CipherAlg::AesGcm }, HashAlg::Sha512).unwrap(), crate::seam::Backend::Ring));
+            }
+            v
+        })
+        .collect();
+    vnames.par_iter().for_each(|(p, b)| check_name_variant(&ctx, p, *b));
+    ctx.set("names_exactly_sized_buffers", json!(vnames.len()));
     // E2
     let (extra, devs) = if quick { (3, 2) } else { (5, 3) };
     // all 38 base patterns and a psk variant of each (psk on the last message; thorough also psk0 and P-256)
@@ -498,6 +576,18 @@ pub fn run(tier: Tier) -> i32 {
 }
 
 pub fn replay(case: &serde_json::Value) -> Result<(), String> {
+    if case["kind"] == "c07-diff" {
+        let (cfg, ops) = sess::case_from_json(case).ok_or("bad case")?;
+        let base_ops: Vec<Op> = serde_json::from_value(case["base_ops"].clone()).map_err(|e| e.to_string())?;
+        let steps: Vec<usize> = serde_json::from_value(case["fault_steps"].clone()).map_err(|e| e.to_string())?;
+        let clean_w = wire_bytes(&sess::run(&cfg, &base_ops));
+        let e = sess::run(&cfg, &ops);
+        let (v, _) = judge_against_clean(&e, &clean_w, &steps, &["replayed fault"]);
+        return match v.first() {
+            Some((s, d)) => Err(format!("{s}: {d}\n{}", sess::describe_steps(&e).join("\n"))),
+            None => Ok(()),
+        };
+    }
     let (cfg, ops) = sess::case_from_json(case).ok_or("bad case")?;
     let proto = cfg.proto();
     let h = honest(&proto);
